@@ -162,6 +162,9 @@ func c15Run(t *testing.T, sc c15Scenario, c *vsched.Chooser) (out vsched.Outcome
 		mu.Lock()
 		res := append([]c15Result(nil), results...)
 		mu.Unlock()
+		for _, tp := range s.ThreadPanics {
+			v = append(v, vsched.Fail("panic-in-client-thread/"+sc.api, "%s", tp))
+		}
 		var b strings.Builder
 		for _, x := range res {
 			switch {
